@@ -36,9 +36,9 @@ InputsOK(e) == Field(e, "inmod", 0) = 0
 \* exact output footprint as a function of the length arguments
 FootprintOK(e) ==
     CASE e.e = "Enc"      -> Len(e.out) = Len(e.m) + 8 /\ e.clen = Len(e.m) + 8
-      [] e.e = "Dec"      -> IF Len(e.c) >= 8 THEN e.mlen = Len(e.c) - 8 /\ Len(e.mout) = Len(e.c) - 8 /\ e.res \in {0, -1}
+      [] e.e = "Dec"      -> IF Len(e.c) >= 8 THEN (e.res = 0 => e.mlen = Len(e.c) - 8) /\ Len(e.mout) = Len(e.c) - 8 /\ e.res \in {0, -1}
                              ELSE e.res < 0 /\ e.untouched = 1
-      [] e.e = "DecBig"   -> e.mlen = e.clen - 8
+      [] e.e = "DecBig"   -> e.res = 0 => e.mlen = e.clen - 8
       [] e.e = "Hash"     -> Len(e.out) = 32
       [] e.e = "HFinal"   -> Len(e.out) = 32
       [] e.e = "Hmac"     -> Len(e.out) = 32
@@ -63,5 +63,5 @@ EraseOK(e) ==
 TaintOK(e) == Field(e, "taint", 0) = 0
 
 \* the fields whose equality across the two runs of a pair shows full initialisation
-Outputs(e) == [f \in (DOMAIN e \cap {"out", "mout", "res", "clen", "mlen", "ptout", "first", "last", "nonzero"}) |-> e[f]]
+Outputs(e) == [f \in (DOMAIN e \cap {"out", "mout", "res", "clen", "ptout", "first", "last", "nonzero"}) |-> e[f]]
 =============================================================================
